@@ -308,9 +308,9 @@ let read_lit (s : string) : lit =
   | 's' ->
       (match String.split_on_char ':' s with
        | [_; raw; cooked] -> LStr (bytes_of_hex raw, bytes_of_hex cooked)
-       | _ -> LOther)
+       | _ -> LOther false)
   | 'c' -> LChar (n_of_hex (String.sub s 2 (String.length s - 2)))
-  | _ -> LOther
+  | _ -> LOther (String.length s > 2 && s.[2] = 'n')
 let rec read_tt (t : toks) : tt =
   let s = next t in
   match s.[0] with
@@ -329,7 +329,7 @@ let show_lit = function
   | LFloat f -> "Lf" ^ f64_hex f
   | LStr (raw, cooked) -> "Ls:" ^ hex_of_bytes raw ^ ":" ^ hex_of_bytes cooked
   | LChar c -> "Lc" ^ hex_of_n c
-  | LOther -> "Lo"
+  | LOther b -> if b then "Lon" else "Lo"
 let rec show_tt = function
   | Punct (c, s) -> "P" ^ hex_of_n c ^ (match s with Joint -> "j" | Alone -> "a")
   | Lit l -> show_lit l
